@@ -347,6 +347,10 @@ pub trait UInt: Int + Add<<Self as Int>::D, Output = Self> + Div<<Self as Int>::
     fn digits_bytes(&self) -> Vec<u8>;
     fn from_digit_u64(d: u64) -> Self;
     fn set_bit_(&mut self, i: u32, v: bool);
+    /// `From<[digit; N]>` applied to the digits decoded from the pattern
+    fn via_from_array(p: &[u8]) -> Self;
+    /// `<[digit; N]>::from(self)` re-encoded as bytes
+    fn via_into_array(self) -> Vec<u8>;
     uint_methods!(decl);
 }
 
@@ -397,6 +401,13 @@ macro_rules! impl_family {
             }
             fn set_bit_(&mut self, i: u32, v: bool) {
                 self.set_bit(i, v)
+            }
+            fn via_from_array(p: &[u8]) -> Self {
+                <Self as From<[$D; N]>>::from(digits_from_bytes::<$D, N>(p))
+            }
+            fn via_into_array(self) -> Vec<u8> {
+                let arr: [$D; N] = self.into();
+                bytes_from_digits::<$D>(&arr[..])
             }
             uint_methods!(imp bnum::$BUint<N>);
         }
@@ -498,4 +509,80 @@ pub fn width_scale(bits: u32) -> f64 {
         513..=1088 => 0.3,
         _ => 0.15,
     }
+}
+
+// ---------------------------------------------------------------------------------------------
+// `Val`: anything with a W-bit two's-complement pattern (bnum integers and primitive integers)
+// ---------------------------------------------------------------------------------------------
+
+pub trait Val: Copy + Debug + Send + Sync + 'static {
+    const VW: u32;
+    const VSIGNED: bool;
+    const VDIGIT_BITS: u32;
+    fn vname() -> String;
+    fn vload(p: &[u8]) -> Self;
+    fn vstore(&self) -> Vec<u8>;
+    fn vshape() -> Shape {
+        Shape::new(Self::VW, Self::VDIGIT_BITS)
+    }
+    fn vz(&self) -> Z {
+        Z::from_le(&self.vstore(), Self::VSIGNED)
+    }
+    fn v_of_z(z: &Z) -> Self {
+        Self::vload(&z.to_le_wrapped((Self::VW / 8) as usize))
+    }
+}
+
+impl<T: Int> Val for T {
+    const VW: u32 = T::W;
+    const VSIGNED: bool = T::SIGNED;
+    const VDIGIT_BITS: u32 = T::DIGIT_BITS;
+    fn vname() -> String {
+        T::tname()
+    }
+    fn vload(p: &[u8]) -> Self {
+        T::load(p)
+    }
+    fn vstore(&self) -> Vec<u8> {
+        self.store()
+    }
+}
+
+macro_rules! prim_val {
+    ($($t:ty, $signed:expr);*) => {$(
+        impl Val for $t {
+            const VW: u32 = <$t>::BITS;
+            const VSIGNED: bool = $signed;
+            const VDIGIT_BITS: u32 = if <$t>::BITS > 64 { 64 } else { <$t>::BITS };
+            fn vname() -> String { stringify!($t).to_string() }
+            fn vload(p: &[u8]) -> Self { <$t>::from_le_bytes(p.try_into().expect("primitive pattern length")) }
+            fn vstore(&self) -> Vec<u8> { self.to_le_bytes().to_vec() }
+        }
+    )*};
+}
+prim_val!(u8, false; u16, false; u32, false; u64, false; u128, false; usize, false;
+          i8, true; i16, true; i32, true; i64, true; i128, true; isize, true);
+
+/// the 16-width sub-table used by the pairwise properties (C09, C13, parts of C16): all four
+/// digit types, digit-size ratios 2/4/8 in both directions, widths that are / are not multiples of
+/// the other side's digit
+#[macro_export]
+macro_rules! sub_table_types {
+    ($m:ident $(, $x:tt)*) => {
+        $m! { [$($x)*]
+            bnum::BUintD8<1>, bnum::BIntD8<1>, bnum::BUintD8<3>, bnum::BIntD8<3>, bnum::BUintD8<5>, bnum::BIntD8<5>,
+            bnum::BUintD8<8>, bnum::BIntD8<8>, bnum::BUintD8<17>, bnum::BIntD8<17>,
+            bnum::BUintD16<1>, bnum::BIntD16<1>, bnum::BUintD16<3>, bnum::BIntD16<3>, bnum::BUintD16<4>, bnum::BIntD16<4>,
+            bnum::BUintD16<9>, bnum::BIntD16<9>,
+            bnum::BUintD32<1>, bnum::BIntD32<1>, bnum::BUintD32<2>, bnum::BIntD32<2>, bnum::BUintD32<3>, bnum::BIntD32<3>,
+            bnum::BUintD32<5>, bnum::BIntD32<5>,
+            bnum::BUint<1>, bnum::BInt<1>, bnum::BUint<2>, bnum::BInt<2>, bnum::BUint<3>, bnum::BInt<3>
+        }
+    };
+}
+#[macro_export]
+macro_rules! prim_types {
+    ($m:ident $(, $x:tt)*) => {
+        $m! { [$($x)*] u8, u16, u32, u64, u128, usize, i8, i16, i32, i64, i128, isize }
+    };
 }
